@@ -7,7 +7,8 @@ import itertools
 from . import docmodel as D
 
 CASES = ["lower", "title", "alt"]
-GAPS = [" ", "\t", " \f ", "\n", "\r\n", " # c\n", " /* c */ ", "/*c*/", "\n\n\t  "]
+GAPS = [" ", "\t", " \f ", "\n", "\r\n", " # c\n", " /* c */ ", "/*c*/", "\n\n\t  ", " /** c **/ ", " /* a * b / c */ ", " /**/ ", " /* l1\n l2 */ ",
+        " # c /* not a c-comment\n", " ## c\n"]
 
 
 def sites(tree):
@@ -68,6 +69,8 @@ UNIFORM = [
     ("hash comments everywhere", dict(default_gap=" # c\n")),
     ("c comments everywhere", dict(default_gap=" /* c */ ")),
     ("glued c comments", dict(default_gap="/*c*/")),
+    ("starred c comments", dict(default_gap=" /** c **/ ")),
+    ("lower + starred comments", dict(kwcase="lower", default_gap=" /*** c ***/ ")),
     ("form feeds", dict(default_gap=" \f ")),
     ("lower+squote+bare+crlf", dict(kwcase="lower", quote="'", bare=True, newline="\r\n")),
 ]
